@@ -3,12 +3,12 @@ package main
 // C08: the SQL schema is a faithful image of the table structs.
 
 import (
-	"sort"
 	"fmt"
 	"go/ast"
 	"go/constant"
 	"go/token"
 	"go/types"
+	"sort"
 	"strings"
 )
 
